@@ -45,16 +45,17 @@ type c18Obs struct {
 }
 
 type c18In struct {
-	Kind     string  `json:"kind"`               // run phase quitfirst fail badiv tcprun tcpfail
-	IvUs     int     `json:"iv_us"`              // interval, microseconds
-	Ticks    int     `json:"ticks,omitempty"`    // run/phase/tcprun: quit is closed after Ticks intervals ...
-	PhasePct int     `json:"phase,omitempty"`    // ... plus this percentage of one interval
-	FailAt   int     `json:"fail_at,omitempty"`  // fail: the k-th Ping returns an error
-	CutAfter int     `json:"cut_after"`          // tcpfail: the server drops the connection once it has read this many bytes
-	Fin      bool    `json:"fin,omitempty"`      // tcpfail: orderly close (FIN) instead of a reset
-	Slow     bool    `json:"slow,omitempty"`     // tcpfail: nobody answers the stream close, Close sits out ConnectTimeout (1 s)
-	Suffix   []int   `json:"suffix,omitempty"`   // model only: what the schedule goes on offering (0 tick, 1 quit)
-	Obs      *c18Obs `json:"observed,omitempty"` // filled by Run
+	Kind     string   `json:"kind"`               // run phase quitfirst fail badiv tcprun tcpfail conn
+	IvUs     int      `json:"iv_us"`              // interval, microseconds
+	Ticks    int      `json:"ticks,omitempty"`    // run/phase/tcprun: quit is closed after Ticks intervals ...
+	PhasePct int      `json:"phase,omitempty"`    // ... plus this percentage of one interval
+	FailAt   int      `json:"fail_at,omitempty"`  // fail: the k-th Ping returns an error
+	CutAfter int      `json:"cut_after"`          // tcpfail: the server drops the connection once it has read this many bytes
+	Fin      bool     `json:"fin,omitempty"`      // tcpfail: orderly close (FIN) instead of a reset
+	Slow     bool     `json:"slow,omitempty"`     // tcpfail: nobody answers the stream close, Close sits out ConnectTimeout (1 s)
+	Script   [][2]int `json:"script,omitempty"`   // conn: (n, err?) returned by the successive conn.Write calls, then (len, nil)
+	Suffix   []int    `json:"suffix,omitempty"`   // model only: what the schedule goes on offering (0 tick, 1 quit)
+	Obs      *c18Obs  `json:"observed,omitempty"` // filled by Run
 }
 
 type c18 struct{}
@@ -156,6 +157,30 @@ func (c18) Gen(r *rand.Rand, tier string) []interface{} {
 	for i := 0; i < nslow; i++ {
 		add(&c18In{Kind: "tcpfail", IvUs: 2000, CutAfter: 1 + i%3, Fin: i%2 == 1, Slow: true})
 	}
+	// real XMPPTransport over a scripted net.Conn: every conn.Write call of Ping and its result
+	bad := [][2]int{{0, 0}, {2, 0}, {0, 1}, {1, 1}, {-1, 1}, {5, 0}}
+	nconn := 1
+	if thorough {
+		nconn = 6
+	}
+	for rep := 0; rep < nconn; rep++ {
+		for _, b := range bad {
+			for _, k := range []int{1, 2, 3 + r.Intn(8)} {
+				sc := make([][2]int, 0, k)
+				for j := 1; j < k; j++ {
+					sc = append(sc, [2]int{1, 0})
+				}
+				add(&c18In{Kind: "conn", IvUs: 1000 * (1 + r.Intn(3)), Script: append(sc, b)})
+			}
+		}
+		for i := 0; i < 4; i++ {
+			sc := [][2]int{}
+			for j := r.Intn(4); j > 0; j-- {
+				sc = append(sc, [2]int{1, 0})
+			}
+			add(&c18In{Kind: "conn", IvUs: 1000 * (1 + r.Intn(3)), Ticks: 4 + r.Intn(12), Script: sc})
+		}
+	}
 	return out
 }
 
@@ -220,10 +245,22 @@ type kaReal struct {
 	xmpp.Transport
 	rec  *kaRec
 	slow bool
+	fc   *kaFakeConn // conn kind: the scripted connection underneath
+	mu   sync.Mutex
+	pw   [][]string // conn kind: payloads of the conn.Write calls made by each Ping
 }
 
 func (t *kaReal) Ping() error {
+	before := 0
+	if t.fc != nil {
+		before = t.fc.nwrites()
+	}
 	err := t.Transport.Ping()
+	if t.fc != nil {
+		t.mu.Lock()
+		t.pw = append(t.pw, t.fc.writesFrom(before))
+		t.mu.Unlock()
+	}
 	if err != nil {
 		t.rec.add(kaPingFail)
 	} else {
@@ -321,6 +358,8 @@ func (c18) Run(inp interface{}) Sx {
 		var o *c18Obs
 		if in.Kind == "tcprun" || in.Kind == "tcpfail" {
 			obs, o = runKeepaliveTCP(in, attempt)
+		} else if in.Kind == "conn" {
+			obs, o = runKeepaliveConn(in, attempt)
 		} else {
 			obs, o = runKeepaliveStub(in, attempt)
 		}
@@ -338,7 +377,7 @@ func (c18) Run(inp interface{}) Sx {
 // tooFewPings: fewer than a third of the nominal number of keep-alives.
 func (in *c18In) tooFewPings() bool {
 	switch in.Kind {
-	case "run", "phase", "tcprun":
+	case "run", "phase", "tcprun", "conn":
 		return in.Obs != nil && in.Obs.SetupErr == "" && in.nominal() >= 3 && in.Obs.NSucc < in.nominal()/3
 	}
 	return false
@@ -376,7 +415,7 @@ func runKeepaliveStub(in *c18In, attempt int) (Sx, *c18Obs) {
 	if !closed {
 		close(quit) // let a loop that is wrongly still alive go away
 	}
-	return L(kaEvsSx(evs), SBytes("")), c18Summarise(evs, start, closeAt, closed, attempt)
+	return L(kaEvsSx(evs), SBytes(""), L()), c18Summarise(evs, start, closeAt, closed, attempt)
 }
 
 // ---- scripted TCP server: answers the stream header, then records every byte ----
@@ -473,7 +512,7 @@ func (s *kaServer) received() []byte {
 func runKeepaliveTCP(in *c18In, attempt int) (Sx, *c18Obs) {
 	iv := time.Duration(in.IvUs) * time.Microsecond
 	setupErr := func(msg string) (Sx, *c18Obs) {
-		return L(L(Z(-2)), SBytes(msg)), &c18Obs{Attempts: attempt, SetupErr: msg, CloseUs: -1, ReturnUs: -1}
+		return L(L(Z(-2)), SBytes(msg), L()), &c18Obs{Attempts: attempt, SetupErr: msg, CloseUs: -1, ReturnUs: -1}
 	}
 	cut := -1
 	if in.Kind == "tcpfail" {
@@ -513,9 +552,19 @@ func runKeepaliveTCP(in *c18In, attempt int) (Sx, *c18Obs) {
 		}
 		kaSettle(iv)
 	} else {
-		kaWaitDone(done, 12*time.Second)
-		<-srv.over
+		returned := kaWaitDone(done, 12*time.Second)
+		select {
+		case <-srv.over:
+		case <-time.After(2 * time.Second):
+		}
 		kaSettle(iv)
+		if !returned {
+			// a loop that never noticed the dead connection: do not leave it (and the server) behind
+			defer func() {
+				go inner.ReceivedStreamClose()
+				inner.Close()
+			}()
+		}
 	}
 	evs := rec.snapshot()
 	got := srv.received() // before our own clean-up writes </stream:stream>
@@ -528,7 +577,96 @@ func runKeepaliveTCP(in *c18In, attempt int) (Sx, *c18Obs) {
 		go inner.ReceivedStreamClose()
 		inner.Close()
 	}
-	return L(kaEvsSx(evs), SBytes(string(got))), o
+	return L(kaEvsSx(evs), SBytes(string(got)), L()), o
+}
+
+// ---- scripted net.Conn under the real XMPPTransport ----
+
+type kaFakeConn struct {
+	mu     sync.Mutex
+	script [][2]int
+	writes []string
+	closes int
+}
+type kaAddr struct{}
+
+func (kaAddr) Network() string { return "fake" }
+func (kaAddr) String() string  { return "fake" }
+
+func (c *kaFakeConn) Write(p []byte) (int, error) {
+	c.mu.Lock()
+	defer c.mu.Unlock()
+	k := len(c.writes)
+	c.writes = append(c.writes, string(p))
+	if k < len(c.script) {
+		var err error
+		if c.script[k][1] != 0 {
+			err = errors.New("fake conn: write failed")
+		}
+		return c.script[k][0], err
+	}
+	return len(p), nil
+}
+func (c *kaFakeConn) Read(p []byte) (int, error)       { return 0, errors.New("fake conn: nothing to read") }
+func (c *kaFakeConn) Close() error                     { c.mu.Lock(); c.closes++; c.mu.Unlock(); return nil }
+func (c *kaFakeConn) LocalAddr() net.Addr              { return kaAddr{} }
+func (c *kaFakeConn) RemoteAddr() net.Addr             { return kaAddr{} }
+func (c *kaFakeConn) SetDeadline(time.Time) error      { return nil }
+func (c *kaFakeConn) SetReadDeadline(time.Time) error  { return nil }
+func (c *kaFakeConn) SetWriteDeadline(time.Time) error { return nil }
+func (c *kaFakeConn) nwrites() int                     { c.mu.Lock(); defer c.mu.Unlock(); return len(c.writes) }
+func (c *kaFakeConn) writesFrom(i int) []string {
+	c.mu.Lock()
+	defer c.mu.Unlock()
+	return append([]string{}, c.writes[i:]...)
+}
+
+// scriptFailAt: the first scripted write that does not put the keep-alive on the wire
+// (error, or a byte count other than 1); 0 if none.
+func (in *c18In) scriptFailAt() int {
+	for i, w := range in.Script {
+		if w[1] != 0 || w[0] != 1 {
+			return i + 1
+		}
+	}
+	return 0
+}
+
+func runKeepaliveConn(in *c18In, attempt int) (Sx, *c18Obs) {
+	iv := time.Duration(in.IvUs) * time.Microsecond
+	fc := &kaFakeConn{script: in.Script}
+	rec := &kaRec{}
+	// ConnectTimeout 0: XMPPTransport.Close does not wait for the server's stream close
+	tr := &kaReal{Transport: xmpp.VerifXMPPTransportOnConn(fc, 0), rec: rec, slow: true, fc: fc}
+	quit := make(chan struct{})
+	closed := false
+	var closeAt time.Time
+	start := time.Now()
+	done := kaStart(tr, rec, iv, quit)
+	if in.scriptFailAt() == 0 {
+		time.Sleep(time.Duration(in.Ticks) * iv)
+		closed, closeAt = true, time.Now()
+		close(quit)
+		kaWaitDone(done, 5*time.Second)
+	} else {
+		kaWaitDone(done, 5*time.Second+40*time.Duration(len(in.Script))*iv)
+	}
+	kaSettle(iv)
+	evs := rec.snapshot()
+	if !closed {
+		close(quit)
+	}
+	tr.mu.Lock()
+	pws := make([]Sx, len(tr.pw))
+	for i, ws := range tr.pw {
+		xs := make([]Sx, len(ws))
+		for j, w := range ws {
+			xs[j] = SBytes(w)
+		}
+		pws[i] = LS(xs)
+	}
+	tr.mu.Unlock()
+	return L(kaEvsSx(evs), SBytes(""), LS(pws)), c18Summarise(evs, start, closeAt, closed, attempt)
 }
 
 // ---- model input ----
@@ -547,12 +685,26 @@ func (c18) Input(inp interface{}) Sx {
 		term, failAt = 1, in.FailAt
 	case "tcpfail":
 		term, failAt = 1, o.NSucc+1 // which write the kernel refuses is the fault oracle's choice: observed
+	case "conn":
+		if in.scriptFailAt() > 0 {
+			term = 1 // the model finds the failing write in the script by itself
+		}
+	}
+	mode := 0
+	if in.tcp() {
+		mode = 1
+	} else if in.Kind == "conn" {
+		mode = 2
+	}
+	script := make([]Sx, len(in.Script))
+	for i, w := range in.Script {
+		script[i] = L(Zi(w[0]), Zi(w[1]))
 	}
 	suf := make([]Sx, len(in.Suffix))
 	for i, s := range in.Suffix {
 		suf[i] = Zi(s & 1)
 	}
-	return L(Zi(in.IvUs), Zi(term), Zi(failAt), Zi(o.NSucc), LS(suf), B(in.tcp()), Zi(o.SrvN))
+	return L(Zi(in.IvUs), Zi(term), Zi(failAt), Zi(o.NSucc), LS(suf), Zi(mode), Zi(o.SrvN), LS(script))
 }
 
 // ---- direct oracle: the property's own clauses on the observed log ----
@@ -560,7 +712,7 @@ func (c18) Input(inp interface{}) Sx {
 func (c18) Oracle(inp interface{}, obs Sx) (string, string) {
 	in := inp.(*c18In)
 	o := in.Obs
-	if o == nil || len(obs.L) != 2 {
+	if o == nil || len(obs.L) != 3 {
 		return "no observation: " + obs.String(), "shape"
 	}
 	if o.SetupErr != "" {
@@ -657,6 +809,32 @@ func (c18) Oracle(inp interface{}, obs Sx) (string, string) {
 	case "tcpfail":
 		if firstFail < 0 {
 			return "connection dropped by the server but no keep-alive ever failed", "failure-not-reached"
+		}
+	case "conn":
+		// every Ping: exactly one conn.Write call, of exactly the byte "\n"
+		for i, pw := range obs.L[2].L {
+			if len(pw.L) != 1 || string(bytesOf(pw.L[0])) != "\n" {
+				return fmt.Sprintf("ping %d made the conn.Write calls %s", i+1, pw.String()), "ping-content"
+			}
+		}
+		if len(obs.L[2].L) != pings {
+			return "Ping calls and recorded write groups differ", "shape"
+		}
+		// the keep-alive is not on the wire if Write reported an error or a count other than 1
+		if k := in.scriptFailAt(); k > 0 {
+			if firstFail < 0 || cnt[kaPingOk] != k-1 {
+				return fmt.Sprintf("conn.Write call %d returned (%d, err=%v): %d pings reported success, failure seen: %v", k, in.Script[k-1][0], in.Script[k-1][1] != 0, cnt[kaPingOk], firstFail >= 0), "unwritten-ping-not-detected"
+			}
+		} else {
+			if cnt[kaPingFail] != 0 {
+				return "a keep-alive failed on a healthy connection", "unexpected-failure"
+			}
+			if firstRet < 0 {
+				return "the goroutine did not return after quit was closed", "quit-no-return"
+			}
+			if in.tooFewPings() {
+				return fmt.Sprintf("%d keep-alives in %d intervals (3 attempts)", pings, in.nominal()), "too-few-pings"
+			}
 		}
 	}
 	if in.tcp() {
